@@ -552,11 +552,16 @@ def across_restart(binary, res, rng):
             p2 = c.cmd("PTTL", k)
             b1, wb1 = time.monotonic(), time.time()
             res.evaluations += 1
-            if not isinstance(p2, int) or p2 < 0:
-                res.violation("ttl-lost/after-restart", "key %s had PTTL %r before %s + restart, afterwards PTTL -> %r" % (resp.show(k), p1, mode, p2))
-                break
             lo = p1 - max(b1 - a0, wb1 - wa0) * 1000 - tol
             hi = p1 - min(b0 - a1, wb0 - wa1) * 1000 + tol
+            if p2 == -2 and lo <= 0:
+                # save + restart + load took longer than the key had left (loaded machine): absent is right
+                res.count("across_restart_keys_whose_deadline_passed_meanwhile")
+                continue
+            if not isinstance(p2, int) or p2 < 0:
+                res.violation("ttl-lost/after-restart", "key %s had PTTL %r before %s + restart, afterwards PTTL -> %r although at most %.0f ms had passed" % (
+                    resp.show(k), p1, mode, p2, max(b1 - a0, wb1 - wa0) * 1000))
+                break
             if not (lo <= p2 <= hi):
                 res.violation("%s/after-restart" % ("early" if p2 < lo else "late"),
                               "key %s (db 9, written late in a %s that took %.0f ms): PTTL %d before, %d after the restart; its deadline moved by %+.0f ms "
@@ -590,8 +595,17 @@ def busy_sweeper(binary, res, rng, nbulk=160000, nprobe=6000):
     srv = server.Server(binary).start()
     try:
         c = srv.client(timeout=120)
+        # how fast is this machine right now? (big pipelines for the bulk, small ones for the probe keys)
+        w0 = time.monotonic()
+        c.pipeline([[b"SET", b"warm:%d" % j, b"x", b"PX", b"1"] for j in range(4000)])
+        w1 = time.monotonic()
+        for _ in range(20):
+            c.pipeline([[b"SET", b"warm:s", b"x", b"PX", b"1"]] * 32)
+        w2 = time.monotonic()
+        est = 1.6 * (w1 - w0) * nbulk / 4000.0 + 1.6 * (w2 - w1) * (2 * nprobe) / 640.0 + 0.8
         t0 = time.monotonic()
-        due = t0 + 8.0                       # the moment (client clock) at which the bulk falls due
+        due = t0 + max(6.0, min(est, 40.0))  # the moment (client clock) at which the bulk falls due
+        res.extra["busy_sweeper_setup_estimate_s"] = round(est, 1)
         i = 0
         while i < nbulk:
             T = int((due - time.monotonic()) * 1000)
@@ -667,8 +681,8 @@ def busy_sweeper(binary, res, rng, nbulk=160000, nprobe=6000):
         res.extra["busy_sweeper_longest_probe_wait_ms"] = round(longest_wait * 1000, 1)
         res.cell("busy-sweeper", "probes-waited-on-a-locked-shard" if stalled else "no-probe-ever-waited")
         res.cell("busy-sweeper", "passes-during-probing>=1" if passes >= 1 else "no-pass-during-probing")
-        if sent < nprobe // 2 and not late:
-            res.inconclusive.append("busy sweeper: only %d of %d probes could be placed" % (sent, nprobe))
+        if sent < 300 and not late:
+            res.inconclusive.append("busy sweeper: only %d of %d probes could be placed (setup estimated %.1f s)" % (sent, nprobe, est))
         c.close()
     finally:
         srv.cleanup()
